@@ -352,6 +352,46 @@ def install_std_extras(eng):
     S(r"^<(u8|u16|u32|u64|usize|i32|i64) as (From|Into)<.*>>::(from|into)$|^<(u8|u16|u32|u64|usize) as TryFrom<.*>>::try_from$",
       lambda e, st, c, a, d: Outcome(a[0] if "Try" not in c else AggV("Result", 0, [a[0]], "Ok")))
 
+    # io::Error kinds: a symbolic kind per error value unless the model pinned one; comparisons are deterministic
+    def _kind_of(eng, st, v):
+        v = deref_ref(eng, st, v)
+        if isinstance(v, OpaqueV):
+            if "kind" not in v.attrs:
+                v.attrs["kind"] = ("sym", "iokind_%d" % next(eng.fresh_ids))
+            return v.attrs["kind"]
+        if isinstance(v, AggV):
+            return v.vname if isinstance(v.vname, str) else v.ty.split("::")[-1]
+        return re.sub(r".*::", "", getattr(v, "name", "") or repr(v))
+    S(r"^std::io::Error::kind$", lambda e, st, c, a, d: Outcome(OpaqueV("ErrorKind", None, {"kind": _kind_of(e, st, a[0])})))
+
+    def s_kind_eq(eng, st, callee, args, dty):
+        a, b = _kind_of(eng, st, args[0]), _kind_of(eng, st, args[1])
+        if isinstance(a, tuple) or isinstance(b, tuple):
+            if a == b:
+                return Outcome(BoolV(True))
+            x, y = sorted([a[1] if isinstance(a, tuple) else a, b[1] if isinstance(b, tuple) else b])
+            return Outcome(BoolV(z3.Bool("%s_is_%s" % (x, y))))
+        return Outcome(BoolV(a == b))
+    S(r"^<(std::io::)?ErrorKind as PartialEq>::(eq|ne)$", lambda e, st, c, a, d: s_kind_eq(e, st, c, a, d) if c.endswith("eq") else Outcome(BoolV(z3.Not(s_kind_eq(e, st, c, a, d).ret.t))))
+    S(r"^std::io::Error::last_os_error$", lambda e, st, c, a, d: Outcome(OpaqueV("std::io::Error", "os_error_%d" % next(e.fresh_ids))))
+    S(r"^std::io::Error::raw_os_error$", lambda e, st, c, a, d: Outcome(some(e.fresh_int(st, "i32", "errno"))))
+
+    # getrlimit(2): soft <= hard, both written through the pointer; 0 or -1
+    def s_getrlimit(eng, st, callee, args, dty):
+        r = args[1]
+        cur = eng.fresh_int(st, "u64", "rlim_cur")
+        mx = eng.fresh_int(st, "u64", "rlim_max")
+        res = args[0]
+        v = deref_ref(eng, st, r)
+        if not (isinstance(v, AggV) and len(v.fields) == 2):
+            raise EngineAbort("getrlimit: unexpected rlimit value %r" % (v,))
+        eng.write(st, r.cell, r.path, AggV(v.ty, v.variant, [cur, mx], v.vname))
+        st.ghost["rlimit_soft"] = cur
+        st.ghost["rlimit_hard"] = mx
+        return [Outcome(IntV(0, "i32"), [cur.t <= mx.t], events=[Event("getrlimit", [res], (cur, mx))]),
+                Outcome(IntV(-1, "i32"), events=[Event("getrlimit", [res], "err")])]
+    S(r"^(libc::)?getrlimit(64)?$|^rustix::process::getrlimit$", s_getrlimit)
+
 
 # ----------------------------------------------------------------------------- eager iterators
 # Iterators over lists whose length is concrete on the current path (directory listings, Vecs, slices) are
